@@ -21,6 +21,7 @@ import copy
 import hashlib
 import json
 import random
+import re
 
 from lib import build, hrun, tlc, tracestats as tracex
 from lib.common import Broken, log
@@ -28,7 +29,7 @@ from lib.common import Broken, log
 LEVEL = "model_checking"
 
 CFG = """CONSTANTS NT = %(NT)d  NK = %(NK)d  NV = %(NV)d  NS = %(NS)d  MaxCtx = %(MaxCtx)d  MaxSet = %(MaxSet)d
-          MaxDepth = %(MaxDepth)d  MaxMap = %(MaxMap)d  GenDepth = %(GenDepth)d  DeepTarget = %(DeepTarget)d
+          MaxDepth = %(MaxDepth)d  MaxMap = %(MaxMap)d  MaxDrop = %(MaxDrop)d  GenDepth = %(GenDepth)d  DeepTarget = %(DeepTarget)d
           Hist = %(Hist)s  KeepFlags = FALSE  Dev = {}
 INIT Init
 NEXT Next
@@ -36,11 +37,11 @@ NEXT Next
 """
 MC_TAIL = ("VIEW View\nINVARIANTS TypeOK MostRecentBinding Shadowing StackFrames\n"
            "PROPERTIES Immutable AttachMakesCurrent DetachRestores ForeignTokenNoOp ScopeActivates ThreadsIsolated")
-ACTIONS = ["DoSetValue", "DoSetValues", "DoAttach", "DoDetach", "DoScopeEnter", "DoScopeExit"]
+ACTIONS = ["DoSetValue", "DoSetValues", "DoAttach", "DoDetach", "DoScopeEnter", "DoScopeExit", "DoDrop"]
 
 
-def K(NT, NK, NV, NS, MaxCtx, MaxSet, MaxDepth, MaxMap, GenDepth=0, DeepTarget=99, Hist=False):
-    return dict(NT=NT, NK=NK, NV=NV, NS=NS, MaxCtx=MaxCtx, MaxSet=MaxSet, MaxDepth=MaxDepth, MaxMap=MaxMap,
+def K(NT, NK, NV, NS, MaxCtx, MaxSet, MaxDepth, MaxMap, GenDepth=0, DeepTarget=99, Hist=False, MaxDrop=0):
+    return dict(NT=NT, NK=NK, NV=NV, NS=NS, MaxCtx=MaxCtx, MaxSet=MaxSet, MaxDepth=MaxDepth, MaxMap=MaxMap, MaxDrop=MaxDrop,
                 GenDepth=GenDepth, DeepTarget=DeepTarget, Hist="TRUE" if Hist else "FALSE")
 
 
@@ -53,6 +54,17 @@ def _cfg(ctx, name, consts, extra):
     return p
 
 
+_RE_COV = re.compile(r"^<(\w+) line \d+, col \d+ to line \d+, col \d+ of module Context[^>]*>: (\d+):(\d+)", re.M)
+
+
+def _coverage(out):
+    """action -> distinct states found through it (also the `(l c l c)` form TLC prints for some \\E disjuncts)"""
+    cov = {}
+    for m in _RE_COV.finditer(out):
+        cov[m.group(1)] = cov.get(m.group(1), 0) + int(m.group(2))
+    return cov
+
+
 def _par(jobs, n):
     with cf.ThreadPoolExecutor(max_workers=n) as ex:
         futs = [ex.submit(*j) for j in jobs]
@@ -60,30 +72,35 @@ def _par(jobs, n):
 
 
 # ------------------------------------------------------------------------------------------ 1. TLC
-def model_check(ctx):
+def mc_jobs(ctx):
     thorough = ctx.tier == "thorough"
     # (NT, NK, NV, NS, MaxCtx, MaxSet, MaxDepth, MaxMap); measured distinct states in design_notes/C10.md
-    cfgs = [("values", K(1, 2, 1, 1, 3, 2, 1, 2)),          # family of contexts, shadowing, immutability
-            ("deep", K(1, 1, 1, 1, 2, 1, 7, 1)),            # every detach order, depth <= 7, one thread
-            ("threads", K(2, 1, 1, 1, 2, 1, 3, 1))]         # two threads interleaved
+    cfgs = [("values", K(1, 2, 1, 1, 3, 2, 1, 2, MaxDrop=3)),   # family of contexts, shadowing, immutability, every drop order
+            ("deep", K(1, 1, 1, 1, 2, 1, 7, 1)),                 # every detach order, depth <= 7, one thread
+            ("threads", K(2, 1, 1, 1, 2, 1, 3, 1))]              # two threads interleaved
     if thorough:
-        cfgs += [("values2", K(1, 2, 1, 1, 3, 3, 2, 2)), ("deep2", K(1, 1, 1, 1, 2, 2, 7, 1)),
-                 ("threads2", K(2, 1, 1, 1, 2, 2, 4, 1)), ("threads3", K(3, 1, 1, 1, 1, 1, 3, 1))]
+        cfgs += [("values2", K(1, 2, 1, 1, 3, 3, 2, 2, MaxDrop=2)), ("deep2", K(1, 1, 1, 1, 2, 2, 7, 1, MaxDrop=1)),
+                 ("threads2", K(2, 1, 1, 1, 2, 2, 4, 1)), ("threads3", K(3, 1, 1, 1, 1, 1, 3, 1, MaxDrop=1))]
 
     def one(name, k):
         c = _cfg(ctx, "mc-" + name, k, MC_TAIL)
         return name, tlc.tlc("Context", c, rundir=ctx.rundir.path, workers=4, timeout_s=1100 if thorough else 150,
                              coverage=(name in ("values", "threads")), xmx="6g", tag="mc-" + name)
-    for name, r in _par([(one, n, k) for n, k in cfgs], 3):
+    return [(one, n, k) for n, k in cfgs]
+
+
+def mc_collect(ctx, results):
+    for name, r in results:
         ctx.add_tlc("Context exhaustive (%s)" % name, r)
         if r.status == "timeout":
             log("C10 model checking config %s timed out (bounded; not exhaustive)" % name)
             continue
         tlc.must_ok(r, "Context.tla model checking (%s): the ideal spec must satisfy the property" % name)
-        if r.coverage:
+        cov = _coverage(r.out)
+        if cov and name == "values":
             for a in ACTIONS:
-                # (TLC names a singleton \E-instantiation after the inner action)
-                if r.coverage.get(a, (0, 0))[0] + r.coverage.get(a[2:], (0, 0))[0] == 0:
+                # (TLC names a singleton \E-instantiation after the inner action: DoDrop / DropContext / Drop..)
+                if cov.get(a, 0) + cov.get(a[2:], 0) + cov.get(a[2:] + "Context", 0) == 0:
                     raise Broken("vacuity: action %s never taken in MC config %s" % (a, name))
 
 
@@ -98,46 +115,61 @@ WITNESSES = {
     "WitForeignX": K(2, 1, 1, 1, 1, 1, 2, 1),
     "WitNestedScope": K(1, 1, 1, 2, 3, 1, 3, 1), "WitScopeOoo": K(1, 1, 1, 2, 3, 1, 3, 1),
     "WitScopeRestore": K(1, 1, 1, 2, 3, 1, 3, 1),
+    # destruction of context handles in every order relative to parents / children
+    "WitScopeDestroy": K(1, 1, 1, 1, 2, 0, 2, 1, MaxDrop=1), "WitDropChild": K(1, 2, 1, 1, 3, 3, 1, 1, MaxDrop=1),
+    "WitDropLeaf": K(1, 2, 1, 1, 3, 3, 1, 1, MaxDrop=1), "WitDropParent": K(1, 2, 1, 1, 3, 3, 1, 1, MaxDrop=1),
+    "WitDropMiddle": K(1, 2, 1, 1, 3, 3, 1, 1, MaxDrop=1), "WitDropAttached": K(1, 1, 1, 1, 2, 2, 2, 1, MaxDrop=1),
 }
-DEEP_WITNESSES = ["WitOooDeep", "WitOooDeep2"]
+# witnesses found by random walks under an action constraint: name -> (constraint, DeepTarget, GenDepth)
+DEEP_WITNESSES = {"WitOooDeep": ("DeepFirst", 16, 90), "WitOooDeep2": ("DeepFirst", 33, 90),
+                  "WitUnwindSmall": ("DeepFirst", 16, 90), "WitRegrow": ("DeepCycle", 16, 110),
+                  "WitOooRegrow": ("DeepCycle", 16, 130)}
 
 
-def generate(ctx):
+def gen_jobs(ctx):
     thorough = ctx.tier == "thorough"
-    behs = []          # (source, constants, steps)
-    wit_len = {}
 
     def wit(name, k):
         k = dict(k, GenDepth=30, Hist="TRUE")
         c = _cfg(ctx, "w-" + name, k, "VIEW View\nCONSTRAINT Bound\nINVARIANTS " + name)
-        return name, k, tlc.tlc("Context", c, rundir=ctx.rundir.path, workers=2, timeout_s=120, tag="w-" + name)
+        return name, k, tlc.tlc("Context", c, rundir=ctx.rundir.path, workers=1, timeout_s=120, tag="w-" + name, xmx="2g")
 
     def deepwit(name):
-        k = K(1, 2, 1, 1, 8, 4, 40, 1, GenDepth=90, DeepTarget=33 if name.endswith("2") else 16, Hist=True)
-        c = _cfg(ctx, "w-" + name, k, "VIEW View\nCONSTRAINT Bound\nACTION_CONSTRAINT DeepFirst\nINVARIANTS " + name)
+        cons, target, depth = DEEP_WITNESSES[name]
+        k = K(1, 2, 1, 1, 8, 4, 40, 1, GenDepth=depth, DeepTarget=target, Hist=True, MaxDrop=2)
+        c = _cfg(ctx, "w-" + name, k, "VIEW View\nCONSTRAINT Bound\nACTION_CONSTRAINT %s\nINVARIANTS %s" % (cons, name))
         return name, k, tlc.tlc("Context", c, rundir=ctx.rundir.path, workers=2, timeout_s=150, tag="w-" + name,
-                                simulate={"num": 100000, "depth": 100}, seed=ctx.seed + 3)
+                                simulate={"num": 100000, "depth": depth + 10}, seed=ctx.seed + 3, xmx="2g")
 
     def allshort():
-        k = K(1, 2, 1, 1, 3, 2, 3, 1, GenDepth=5 if thorough else 4, Hist=True)
+        k = K(1, 2, 1, 1, 3, 2, 3, 1, GenDepth=5 if thorough else 4, Hist=True, MaxDrop=2)
         c = _cfg(ctx, "g-all", k, "CONSTRAINT Bound\nACTION_CONSTRAINT Closing\nINVARIANTS EmitAll")
         return "all", k, tlc.tlc("Context", c, rundir=ctx.rundir.path, workers=4, timeout_s=150, tag="g-all", xmx="6g")
 
-    def sim(i, k, num, deepfirst):
+    def sim(i, k, num, cons):
         c = _cfg(ctx, "g-sim%d" % i, k, "VIEW View\nCONSTRAINT Bound\nACTION_CONSTRAINT Closing%s\nINVARIANTS EmitAll" % (
-            " DeepFirst" if deepfirst else ""))
+            " " + cons if cons else ""))
         return "sim%d" % i, k, tlc.tlc("Context", c, rundir=ctx.rundir.path, workers=4, timeout_s=300, tag="g-sim%d" % i,
                                        simulate={"num": num, "depth": k["GenDepth"] + 20}, seed=ctx.seed * 31 + i, xmx="6g")
 
-    n = 60 if thorough else 12          # per worker (4 workers)
-    sims = [(0, K(2, 3, 2, 2, 14, 8, 40, 2, GenDepth=80, DeepTarget=16, Hist=True), n, True),
-            (1, K(3, 4, 3, 2, 12, 8, 40, 2, GenDepth=60, DeepTarget=16, Hist=True), n, False),
-            (2, K(1, 3, 2, 2, 16, 8, 70, 2, GenDepth=120, DeepTarget=34, Hist=True), n // 2, True)]
+    n = 60 if thorough else 10          # per worker (4 workers)
+    sims = [(0, K(2, 3, 2, 2, 14, 8, 40, 2, GenDepth=80, DeepTarget=16, Hist=True, MaxDrop=4), n, "DeepFirst"),
+            (1, K(3, 4, 3, 2, 12, 8, 40, 2, GenDepth=60, DeepTarget=16, Hist=True, MaxDrop=6), n, ""),
+            (2, K(1, 3, 2, 2, 16, 8, 70, 2, GenDepth=120, DeepTarget=34, Hist=True, MaxDrop=4), n // 2, "DeepFirst"),
+            # grow beyond 16 / 32, unwind to <= 3, grow again, then anything (shrink-after-growth)
+            (3, K(1, 2, 2, 2, 12, 6, 40, 2, GenDepth=130, DeepTarget=17, Hist=True, MaxDrop=3), n, "DeepCycle"),
+            (4, K(2, 2, 1, 2, 10, 4, 70, 2, GenDepth=200, DeepTarget=33, Hist=True, MaxDrop=2), n // 2, "DeepCycle")]
     if thorough:
-        sims.append((3, K(3, 2, 2, 3, 20, 6, 70, 2, GenDepth=150, DeepTarget=20, Hist=True), n // 2, True))
-    jobs = [(wit, nme, k) for nme, k in WITNESSES.items()] + [(deepwit, nme) for nme in DEEP_WITNESSES]
-    jobs += [(allshort,)] + [(sim,) + s for s in sims]
-    for name, k, r in _par(jobs, 4):
+        sims.append((5, K(3, 2, 2, 3, 20, 6, 70, 2, GenDepth=150, DeepTarget=20, Hist=True, MaxDrop=6), n // 2, "DeepFirst"))
+    jobs = [(sim,) + s for s in sims] + [(allshort,)] + [(deepwit, nme) for nme in DEEP_WITNESSES]
+    jobs += [(wit, nme, k) for nme, k in WITNESSES.items()]
+    return jobs
+
+
+def gen_collect(ctx, results):
+    behs = []          # (source, constants, steps)
+    wit_len = {}
+    for name, k, r in results:
         ctx.add_tlc("generation " + name, r, complete=True)
         b = r.printed("BEH")
         if name.startswith("Wit"):
@@ -175,42 +207,59 @@ def concretise(ctx, behs):
     return out
 
 
-def run_replay(ctx, exe, insts, tag):
-    """-> ({id: result line}, [crash records]).  A crash of the real code is recorded for the behaviour
-    it happened in and the rest is resumed in a new process (at most 3 times).  Thread-safe: does not
-    touch ctx verdicts."""
+def run_replay(ctx, exe, insts, tag, watchdog_s=None):
+    """-> ({id: result line}, [crash/hang records]).  The replayer prints one line per finished
+    behaviour, so a process that dies (sanitizer report, signal) or whose watchdog fires (the real code
+    hangs: line {"hang":true,"step":i}, exit 3) names the behaviour it happened in; the rest is resumed
+    in a new process (at most 3 such restarts per partition).  Thread-safe: touches no verdicts."""
     res = {}
     crashes = []
     todo = list(insts)
     rounds = 0
+    env = {"C10_WATCHDOG_S": str(watchdog_s)} if watchdog_s else None
     while todo:
         rounds += 1
         path = ctx.rundir.file("beh-%s-%d.ndjson" % (tag, rounds))
         with open(path, "w") as f:
             for b in todo:
                 f.write(json.dumps(b) + "\n")
-        r = hrun.run_harness(exe, ["replay", path], timeout=900)
-        got = r.json()
+        r = hrun.run_harness(exe, ["replay", path], timeout=600, env=env)
+        out = r.json()
+        got = [g for g in out if "ok" in g]
         for g in got:
             res[g["beh"]] = g
         if r.rc == 0 and len(got) == len(todo):
             break
-        if r.timed_out:
-            raise Broken("replay harness timed out")
-        if r.crashed or r.rc != 0:
-            bad = todo[len(got)] if len(got) < len(todo) else None
-            if bad is None:
-                raise Broken("replay harness failed after the last behaviour rc=%s: %s" % (r.rc, r.err[-1500:]))
-            crashes.append({"behaviour": bad, "rc": r.rc, "stderr": r.err[-4000:], "first": _first_error(r.err)})
-            res[bad["id"]] = {"beh": bad["id"], "ok": False, "crash": True}
-            todo = todo[len(got) + 1:]
-            if len(crashes) >= 3:
-                for b in todo:
-                    res[b["id"]] = {"beh": b["id"], "ok": True, "skipped": True}
-                break
+        if len(got) >= len(todo):
+            raise Broken("replay harness failed after the last behaviour rc=%s: %s" % (r.rc, r.err[-1500:]))
+        bad = todo[len(got)]
+        hang = [g for g in out if g.get("hang") and g.get("beh") == bad["id"]]
+        if hang or r.timed_out:
+            crashes.append({"behaviour": bad, "rc": "hang", "stderr": r.err[-2000:], "step": hang[0]["step"] if hang else None,
+                            "first": "the call does not return (watchdog)"})
+        elif r.crashed or r.rc != 0:
+            crashes.append({"behaviour": bad, "rc": r.rc, "stderr": r.err[-4000:], "first": _first_error(r.err), "step": None})
         else:
             raise Broken("replay harness: %d results for %d behaviours" % (len(got), len(todo)))
+        res[bad["id"]] = {"beh": bad["id"], "ok": False, "crash": True}
+        todo = todo[len(got) + 1:]
+        if len(crashes) >= 3:
+            for b in todo:
+                res[b["id"]] = {"beh": b["id"], "ok": True, "skipped": True}
+            break
     return res, crashes
+
+
+def confirm_hang(ctx, exe, c):
+    """A watchdog that fired on a loaded machine is not yet a hang: run that behaviour alone with a long
+    watchdog.  -> True if it hangs again."""
+    b = dict(c["behaviour"], id=0)
+    res, crashes = run_replay(ctx, exe, [b], "confirm%d" % c["behaviour"]["id"], watchdog_s=90)
+    if any(x["rc"] == "hang" for x in crashes):
+        c["step"] = crashes[0]["step"] if crashes[0]["step"] is not None else c["step"]
+        return True
+    c["retry"] = res.get(0)
+    return False
 
 
 def _first_error(err):
@@ -228,10 +277,23 @@ def replay_all(ctx, exe, insts):
         results.update(r)
         crashes += c
     by_id = {b["id"]: b for b in insts}
-    for c in crashes[:3]:
+    nrep = 0
+    for c in crashes:
         bad = c["behaviour"]
-        ctx.violation("real code crashed (rc=%s) while replaying a TLC behaviour (src=%s): %s" % (c["rc"], bad["src"], c["first"]),
-                      {"kind": "replay", "behaviour": bad, "stderr": c["stderr"]})
+        if c["rc"] == "hang" and not confirm_hang(ctx, exe, c):
+            results[bad["id"]] = dict(c["retry"] or {"ok": True, "skipped": True}, beh=bad["id"])   # slow machine, not a hang
+            continue
+        nrep += 1
+        if nrep > 3:
+            continue
+        if c["rc"] == "hang":
+            st = bad["steps"][c["step"]] if c["step"] is not None and 0 <= c["step"] < len(bad["steps"]) else {}
+            ctx.violation("real code HANGS while replaying a TLC behaviour (src=%s): step %s (%s t=%s c=%s) never returns" % (
+                bad["src"], c["step"], st.get("op"), st.get("t"), st.get("c")),
+                {"kind": "replay", "behaviour": dict(bad, steps=bad["steps"][:(c["step"] or len(bad["steps"]) - 1) + 1]), "hang_at": c["step"]})
+        else:
+            ctx.violation("real code crashed (rc=%s) while replaying a TLC behaviour (src=%s): %s" % (c["rc"], bad["src"], c["first"]),
+                          {"kind": "replay", "behaviour": bad, "stderr": c["stderr"]})
     ops = {}
     checks = 0
     nbad = 0
@@ -282,7 +344,7 @@ def selftest(ctx, exe, insts):
             continue
         s = m["steps"][rnd.choice(idx)]
         if what == "cur":
-            s["cur"][0] = s["cur"][0] + 1
+            s["cur"][0] = (s["cur"][0] + 1) % (len(s["tab"]) + 1)
         elif what == "span":
             s["span"][-1] = 1 if s["span"][-1] != 1 else 2
         elif what == "tab":
@@ -306,10 +368,10 @@ def run_replay_quiet(ctx, exe, insts):
     with open(path, "w") as f:
         for b in insts:
             f.write(json.dumps(b) + "\n")
-    r = hrun.run_harness(exe, ["replay", path], timeout=300)
+    r = hrun.run_harness(exe, ["replay", path], timeout=300, env={"C10_WATCHDOG_S": "120"})
     if r.rc != 0:
         raise Broken("self-test replay failed rc=%s %s" % (r.rc, r.err[-1500:]))
-    return {g["beh"]: g for g in r.json()}
+    return {g["beh"]: g for g in r.json() if "ok" in g}
 
 
 # --------------------------------------------------------------------------------- 3. code -> spec
@@ -321,16 +383,30 @@ def record_validate(ctx, exe):
         shapes = [(n * 5, t, m, k) for (n, t, m, k) in shapes] * 2 + [(40, 5, 200, 16), (60, 1, 200, 12)]
 
     def rec(i, shape):
-        r = hrun.run_harness(exe, ["record", ctx.seed * 101 + i] + list(shape), timeout=900)
+        r = hrun.run_harness(exe, ["record", ctx.seed * 101 + i] + list(shape), timeout=900, env={"C10_WATCHDOG_S": "60"})
         return i, shape, r
     lines = []
     for i, shape, r in _par([(rec, i, s) for i, s in enumerate(shapes)], 4):
         if r.rc != 0 or r.crashed:
-            if r.timed_out:
-                raise Broken("recorder timed out")
             if r.rc == 5 or r.rc == 2:
                 raise Broken("recorder failed: " + r.err[-1500:])
             last = max([j for j, ln in enumerate(r.lines) if '"e":"Cfg"' in ln] or [0])
+            if r.rc == 3 or r.timed_out:
+                # watchdog: a thread never came back from a call.  Confirm on a quiet(er) run before alarming.
+                r2 = hrun.run_harness(exe, ["record", ctx.seed * 101 + i] + list(shape), timeout=900, env={"C10_WATCHDOG_S": "240"})
+                if r2.rc == 0:
+                    lines += r2.lines
+                    continue
+                ev = []
+                for x in r.lines[last:][-60:]:
+                    try:
+                        ev.append(json.loads(x))
+                    except Exception:
+                        pass
+                ctx.violation("real code HANGS in a concurrent random program (recorder args %s): a call never returns; last logged events attached" % (
+                    [ctx.seed * 101 + i] + list(shape)), {"kind": "record-hang", "args": [ctx.seed * 101 + i] + list(shape), "events_tail": ev})
+                lines += r.lines[:last]
+                continue
             ev = []
             for x in r.lines[last:][-80:]:
                 try:
@@ -360,7 +436,8 @@ def record_validate(ctx, exe):
             at, json.dumps(ev[at]) if at < len(ev) else "?"),
             {"kind": "trace", "events": ev[:at + 1], "at": at})
     if not ctx.violations:      # (a violation already explains missing coverage)
-        for need in ("deep", "ooo_deep", "dup_ooo", "foreign", "foreign_xthread", "scope_ooo", "shadow"):
+        for need in ("deep", "ooo_deep", "dup_ooo", "foreign", "foreign_xthread", "scope_ooo", "shadow", "regrow", "unwind_to_small",
+                     "drop_child_first", "drop_parent_first", "drop_middle", "drop_leaf_of_chain", "scope_exit_destroys"):
             if agg.get(need, 0) == 0:
                 raise Broken("vacuity: no recorded execution shows condition %r" % need)
     for e in tracex.split_executions(lines)[:1]:
@@ -384,10 +461,11 @@ def run(ctx):
                          "distinct TLC behaviours (sha1 of the step list) + recorded executions (distinct seeds)")
     exe = build.harness("c10_context", ["c10_context.cc"], "asan", need_sdk=False)
     log("C10 harness built %.0fs" % ctx.timer.s())
-    model_check(ctx)
-    log("C10 model checking done %.0fs" % ctx.timer.s())
-    behs = generate(ctx)
-    log("C10 generation done %.0fs (%d behaviours)" % (ctx.timer.s(), len(behs)))
+    jobs = [(lambda j=j: ("mc", j[0](*j[1:]))) for j in mc_jobs(ctx)] + [(lambda j=j: ("gen", j[0](*j[1:]))) for j in gen_jobs(ctx)]
+    results = _par([(j,) for j in jobs], 6)      # model checking and generation are independent TLC runs: one pool
+    mc_collect(ctx, [r for kind, r in results if kind == "mc"])
+    behs = gen_collect(ctx, [r for kind, r in results if kind == "gen"])
+    log("C10 model checking + generation done %.0fs (%d behaviours)" % (ctx.timer.s(), len(behs)))
     insts = concretise(ctx, behs)
     replay_all(ctx, exe, insts)
     selftest(ctx, exe, insts)
